@@ -513,6 +513,9 @@ def copy_derivations(ctx, chk, rule="R10.1"):
                 for mname, m in k.methods.items():
                     if mname == "__init__":
                         continue
+                    if any(d.split(".")[-1] == "cached_property" for d in m.decorators):
+                        # functools.cached_property keeps its value in the instance __dict__ under the method's name: a shallow copy carries it
+                        lazy.setdefault(mname, set()).update(self_reads(k, m))
                     for node in ast.walk(m.node):
                         tg = node.targets if isinstance(node, ast.Assign) else [node.target] if isinstance(node, ast.AnnAssign) else []
                         for t in tg:
